@@ -586,4 +586,14 @@ def run_dual_mesh(col):
                         w, cn.tolist(), want.tolist(), untouched, pn.shape[0], geo)
                 col.check("C08.O7", "mesh.dual(points_per_cell=%s, disconnect=%s, offset=%d)" % (ppc, disconnect, offset),
                           "returns the leading corners of every cell (shared or one set per cell) shifted by the offset, enough points for them, and leaves the parent's points and cells untouched", chk)
+    # more points requested than the cells need (npoints of the parent mesh, so that both fields of a container have one row per point):
+    # the spare rows must not move the coordinates away from the ids the cells refer to
+    def chk_np():
+        pn, cn, ct = it.call(dual, [pts.copy(), cells.copy(), "triangle6"], dict(points_per_cell=3, disconnect=True, offset=0, calc_points=True, npoints=9))
+        cn = npmodel.to_int_array(np.asarray(cn))
+        pn = npmodel.to_obj(np.asarray(pn))
+        geo = pn.shape[0] == 9 and all(is_zero(P(pn[cn[c, t], i]) - pts[cells[c, t], i]) for c in range(2) for t in range(3) for i in range(2))
+        return geo, "%s: %d points; corner coordinates are those of the parent: %s" % (w, pn.shape[0], geo)
+    col.check("C08.O7", "mesh.dual(points_per_cell=3, disconnect=True, calc_points=True, npoints=9)",
+              "with more points requested than needed, every cell corner still sits at the parent's coordinates of that corner (spare points do not shift the ids)", chk_np)
     finish_info(col, it)
